@@ -126,6 +126,12 @@ func (e *Engine) evalSpec(x *SExpr, env *SpecEnv) Value {
 			}
 		}
 		if b, ok := env.bound[x.Val]; ok {
+			switch b.Sort {
+			case SStr:
+				return VTerm{T: b, Typ: types.Typ[types.String]}
+			case SReal:
+				return VTerm{T: b, Typ: types.Typ[types.Float64]}
+			}
 			return VTerm{T: b, Typ: intT}
 		}
 		if v, ok := env.lookup(x.Val); ok {
@@ -199,7 +205,19 @@ func (e *Engine) evalSpec(x *SExpr, env *SpecEnv) Value {
 		var bvs []*Term
 		for _, v := range x.Vars {
 			e.nfresh++
-			bv := mkVar(fmt.Sprintf("%s$%d", v, e.nfresh), SInt)
+			srt := SInt
+			if i := strings.Index(v, ":"); i >= 0 {
+				switch v[i+1:] {
+				case "str":
+					srt = SStr
+				case "real":
+					srt = SReal
+				case "ref":
+					srt = SRef
+				}
+				v = v[:i]
+			}
+			bv := mkVar(fmt.Sprintf("%s$%d", v, e.nfresh), srt)
 			n.bound[v] = bv
 			bvs = append(bvs, bv)
 		}
@@ -222,6 +240,9 @@ func (e *Engine) evalSpec(x *SExpr, env *SpecEnv) Value {
 			return e.sel(b, idx)
 		case VSlice:
 			return e.wrap(mkSelect(b.Arr, idx), b.Elem)
+		case VMap:
+			v, _ := e.mapGet(b, idx)
+			return v
 		}
 		unsup("spec: index of %T in %s", base, x)
 	case "field":
@@ -328,7 +349,17 @@ func (e *Engine) patternsFor(bvs []*Term, body *Term) [][]*Term {
 		w(t)
 		return found
 	}
-	hasArith := func(t *Term) bool { // pattern terms must not contain interpreted arithmetic at top-level index? allowed in z3 (it abstracts); keep
+	var hasArith func(t *Term) bool
+	hasArith = func(t *Term) bool { // boolean structure / ite are not allowed inside patterns
+		switch t.Op {
+		case "ite", "and", "or", "not", "=>", "=", "<", "<=", ">", ">=":
+			return true
+		}
+		for _, a := range t.Args {
+			if hasArith(a) {
+				return true
+			}
+		}
 		return false
 	}
 	walk = func(t *Term, underQ bool) {
@@ -361,6 +392,49 @@ func (e *Engine) patternsFor(bvs []*Term, body *Term) [][]*Term {
 		pats = append(pats, []*Term{c})
 	}
 	return pats
+}
+
+// patterns for several bound variables: one multi-pattern made of applications that together cover all of them
+func (e *Engine) patternsMulti(bvs []*Term, body *Term) [][]*Term {
+	if len(bvs) == 1 {
+		return e.patternsFor(bvs, body)
+	}
+	var pat []*Term
+	covered := map[*Term]bool{}
+	var walk func(t *Term)
+	walk = func(t *Term) {
+		if t.Op == "forall" || t.Op == "exists" {
+			return
+		}
+		if t.Op == "app" {
+			newCover := false
+			for _, a := range t.Args {
+				for _, b := range bvs {
+					if a == b && !covered[b] {
+						newCover = true
+					}
+				}
+			}
+			if newCover {
+				for _, a := range t.Args {
+					for _, b := range bvs {
+						if a == b {
+							covered[b] = true
+						}
+					}
+				}
+				pat = append(pat, t)
+			}
+		}
+		for _, a := range t.Args {
+			walk(a)
+		}
+	}
+	walk(body)
+	if len(covered) != len(bvs) {
+		return nil
+	}
+	return [][]*Term{pat}
 }
 
 func (e *Engine) evalSpecCall(x *SExpr, env *SpecEnv) Value {
@@ -453,6 +527,8 @@ func (e *Engine) evalSpecCall(x *SExpr, env *SpecEnv) Value {
 			return VTerm{T: e.slen(b.ID), Typ: intT}
 		case VSlice:
 			return VTerm{T: b.Len, Typ: intT}
+		case VMap:
+			return VTerm{T: mkApp("mapcard_"+sortTag(b.Has.Sort.key()), SInt, b.Has), Typ: intT}
 		}
 		unsup("spec: len of %T", v)
 	case "consumed", "sent", "closed":
@@ -517,6 +593,27 @@ func (e *Engine) evalSpecCall(x *SExpr, env *SpecEnv) Value {
 			r = r.(VTuple)[atoi(args[2].Val)]
 		}
 		return r
+	case "view":
+		// ghost abstract state of a repository object: map from asset name to the ordered snapshots it holds
+		v := e.evalSpec(args[0], env)
+		vt, ok := v.(VTerm)
+		if !ok || vt.T.Sort != SRef {
+			unsup("spec: view of %T", v)
+		}
+		return e.ghostView(env.st, vt.T)
+	case "has":
+		m, ok := e.evalSpec(args[0], env).(VMap)
+		if !ok {
+			unsup("spec: has() expects a map")
+		}
+		return VTerm{T: mkSelect(m.Has, term(e.evalSpec(args[1], env))), Typ: boolT}
+	case "sameslice":
+		a, ok1 := e.evalSpec(args[0], env).(VSlice)
+		b, ok2 := e.evalSpec(args[1], env).(VSlice)
+		if !ok1 || !ok2 {
+			unsup("spec: sameslice expects slices")
+		}
+		return VTerm{T: mkAnd(mkEq(a.Len, b.Len), mkEq(a.Arr, b.Arr)), Typ: boolT}
 	case "hor":
 		v := e.evalSpec(args[0], env)
 		s, ok := v.(VStream)
@@ -589,6 +686,22 @@ func (e *Engine) evalSpecCall(x *SExpr, env *SpecEnv) Value {
 		}
 		var ts []*Term
 		for i, v := range vs {
+			if pf.Args[i] == "mapdom" {
+				m, ok := v.(VMap)
+				if !ok {
+					unsup("spec: %s expects a map", name)
+				}
+				ts = append(ts, m.Has)
+				continue
+			}
+			if pf.Args[i] == "refslice" {
+				sl, ok := v.(VSlice)
+				if !ok {
+					unsup("spec: %s expects a slice", name)
+				}
+				ts = append(ts, sl.Arr)
+				continue
+			}
 			if pf.Args[i] == "chanslice" {
 				sl, ok := v.(VSlice)
 				if !ok {
@@ -613,6 +726,9 @@ func (e *Engine) evalSpecCall(x *SExpr, env *SpecEnv) Value {
 		case "bool":
 			rs = SBool
 			rt = boolT
+		case "str":
+			rs = SStr
+			rt = types.Typ[types.String]
 		}
 		return VTerm{T: mkApp(name, rs, ts...), Typ: rt}
 	}
@@ -634,4 +750,30 @@ func (e *Engine) fnArg(fv VFunc, i int, k *Term) Value {
 	at := fv.Sig.Params().At(i).Type()
 	s := e.sortOf(at)
 	return e.wrap(mkApp(fmt.Sprintf("fnarg%d_%s", i, sortTag(s)), s, fv.ID, k), at)
+}
+
+func (e *Engine) ghostView(st *State, ref *Term) VMap {
+	key := "ghost:view:" + ref.String()
+	if v, ok := st.memV[key]; ok {
+		return v.(VMap)
+	}
+	ks := SStr
+	vs := arraySort(SInt, SRef)
+	elem := types.NewSlice(types.NewPointer(snapshotType))
+	m := VMap{Has: mkApp("ghost_view_has", arraySortK(ks, SBool), ref), Val: mkApp("ghost_view_val", arraySortK(ks, vs), ref), Len: mkApp("ghost_view_len", arraySortK(ks, SInt), ref), Key: types.Typ[types.String], Elem: elem}
+	e.nfresh++
+	b := mkVar(fmt.Sprintf("k$%d", e.nfresh), ks)
+	st.assume(mkForall([]*Term{b}, mkCmp(">=", mkSelect(m.Len, b), mkInt(0)), [][]*Term{{mkSelect(m.Len, b)}}))
+	return m
+}
+
+func (e *Engine) havocGhostView(st *State, ref *Term) {
+	ks := SStr
+	vs := arraySort(SInt, SRef)
+	elem := types.NewSlice(types.NewPointer(snapshotType))
+	m := VMap{Has: e.fresh("view.has", arraySortK(ks, SBool)), Val: e.fresh("view.val", arraySortK(ks, vs)), Len: e.fresh("view.len", arraySortK(ks, SInt)), Key: types.Typ[types.String], Elem: elem}
+	e.nfresh++
+	b := mkVar(fmt.Sprintf("k$%d", e.nfresh), ks)
+	st.assume(mkForall([]*Term{b}, mkCmp(">=", mkSelect(m.Len, b), mkInt(0)), [][]*Term{{mkSelect(m.Len, b)}}))
+	st.memV["ghost:view:"+ref.String()] = m
 }
